@@ -274,23 +274,26 @@ def t13_dom(run, fx):
     run.rule(rule, "the interpolation arithmetic of default_normalize and avar SegmentMap::normalize is carried out in 16.16 Fixed: every "
                    "Add/Sub/Mul/Div/Neg operator call in them resolves to the tables::Fixed implementation (2.14 operands are widened first)")
     for path in (DEFAULT_NORMALIZE, "tables::variable_fonts::avar::SegmentMap::<'_>::normalize"):
-        b = fx.body(path)
-        if b is None:
+        b0 = fx.body(path)
+        if b0 is None:
             run.anchor_missing(rule, path)
             continue
+        b = b0
         n = 0
         bad = []
-        for bi, t in b.calls():
-            p = t["callee"].get("path") or ""
-            if re.match(r"^std::ops::(Add|Sub|Mul|Div|Neg)::", p):
-                n += 1
-                rp = t["callee"].get("rpath") or ""
-                if not rp.startswith("<tables::Fixed as std::ops::"):
-                    bad.append(rp or p)
-        for bi, blk in enumerate(b.blocks):
-            for s_ in blk["s"]:
-                if s_["k"] == "assign" and s_["rv"]["k"] == "bin" and s_["rv"]["bop"].replace("WithOverflow", "") in ("Add", "Sub", "Mul", "Div") and s_["rv"].get("aty") in ("i16", "u16", "i32"):
-                    bad.append("raw %s on %s" % (s_["rv"]["bop"], s_["rv"].get("aty")))
+        # the function and the private helpers of its module that it delegates the arithmetic to (`Self::interpolate(..)`)
+        for hb in fx.with_helpers(b0, "tables::variable_fonts::"):
+            for bi, t in hb.calls():
+                p = t["callee"].get("path") or ""
+                if re.match(r"^std::ops::(Add|Sub|Mul|Div|Neg)::", p):
+                    n += 1
+                    rp = t["callee"].get("rpath") or ""
+                    if not rp.startswith("<tables::Fixed as std::ops::"):
+                        bad.append(rp or p)
+            for bi, blk in enumerate(hb.blocks):
+                for s_ in blk["s"]:
+                    if s_["k"] == "assign" and s_["rv"]["k"] == "bin" and s_["rv"]["bop"].replace("WithOverflow", "") in ("Add", "Sub", "Mul", "Div") and s_["rv"].get("aty") in ("i16", "u16", "i32"):
+                        bad.append("raw %s on %s" % (s_["rv"]["bop"], s_["rv"].get("aty")))
         if bad:
             run.fail(rule, "domain:%s" % path.split("::")[-1], "%s does arithmetic outside Fixed: %s" % (path, sorted(set(bad))), "%s:%s" % (b.file, b.line))
         elif n == 0:
@@ -311,6 +314,20 @@ def t13_zero(run, fx):
     conds = [(tb, call) for tb, fb, call, sw in guards.bool_call_conditions(b, prov)
              if tb is not None and (call[4] or call[1] or "").endswith(("PartialOrd::lt", "PartialOrd::gt"))
              and any(x[0] == "field" and x[2] == "default_value" for x in sym.walk(call))]
+    # `match coord.cmp(&default) { Less => .., Greater => .., Equal => 0 }`: the arms for -1 and +1 are strict comparisons too
+    for bi, blk in enumerate(b.blocks):
+        t = blk["t"]
+        if t["k"] != "switch" or not b.reachable(bi):
+            continue
+        d = sym.strip(prov.op(t["discr"]))
+        if d[0] == "discr":
+            d = sym.strip(d[1])
+        if d[0] == "call" and (d[4] or d[1] or "").endswith("Ord::cmp") and any(x[0] == "field" and x[2] == "default_value" for x in sym.walk(d)):
+            vals = [v for v, _ in t["arms"]]
+            if 0 in vals:
+                for v, tgt in t["arms"]:
+                    if v != 0 and b.preds(tgt) == [bi]:
+                        conds.append((tgt, d))
     divs = [(bi, t) for bi, t in b.calls() if (t["callee"].get("rpath") or t["callee"].get("path") or "").endswith("Div>::div")]
     if not divs:
         return run.anchor_missing(rule, "Fixed divisions in default_normalize")
